@@ -181,7 +181,19 @@ def validate_trace(specname, tracefile, timeout=900):
         raise ToolError(f"trace validation timeout: {specname} on {tracefile}")
     if consumed is None or consumed[0] != consumed[1] or "Error:" in o:
         i = o.find("Error:")
-        raise ToolError(f"trace not fully consumed by {specname} ({tracefile}): consumed={consumed}\n" + o[max(0, i - 1500):i + 3000])
+        text = o[max(0, i - 1500):i + 3000]
+        if not tags:
+            raise ToolError(f"trace not fully consumed by {specname} ({tracefile}): consumed={consumed}\n" + text)
+        # TLC stopped in the middle of the trace (a recorded state the specification's formulas cannot even be evaluated on),
+        # but it had already flagged events: those stand. Counters are rebuilt from the per-event lines printed so far.
+        evals = {}
+        for gs in apps.values():
+            for g in gs:
+                evals.setdefault(g, [0, 0, 0])
+                evals[g][0] += 1; evals[g][1] += 1
+        for t in tags:
+            evals.setdefault(t["guard"], [0, 0, 0])[2] += 1
+        return {"tags": tags, "known": known, "evals": evals, "apps": apps, "events": max(apps) if apps else 0, "tlc_aborted": text[-1500:]}
     return {"tags": tags, "known": known, "evals": evals, "apps": apps, "events": consumed[1]}
 
 
@@ -441,6 +453,11 @@ def check(prop, tier, seed):
                    "one guard of this property was applicable")
     if P.get("exhaustive"):
         cov["exhaustive"] = True
+    # TLC stopped in the middle of a trace: violations flagged before that stand; without any for this property it is a tool error
+    for famname in P.get("families", []):
+        for d in engine(famname, seed, tier)["drivers"]:
+            if d.get("tlc_aborted") and not violations:
+                raise ToolError(f"TLC could not evaluate the whole trace of driver {d['name']} and flagged nothing for {prop} before stopping:\n" + d["tlc_aborted"])
     # a driver that aborted (its own panic, e.g. on a state the harness did not expect) leaves the rest of its scenarios
     # unrecorded: violations found before the abort stand; without any, the run is a tool error, not a pass
     if cov.get("spec_conformance", {}).get("M_driver_completed", [0, 0, 0])[2] and not violations:
